@@ -10,11 +10,16 @@ NESTS = ["n", "my nest", "class", "1st", "n-x", "lc", "N_2", "in", "a", "self", 
 # ... and names that differ from another name of the pool only by blanks at their ends ("t " next to "t")
 FIELDS = ["a", "b c", "in", "2x", "f/g", "t", "flux", "class", "x", "é", "index", "self", "level_0", "base", "t ", " x"]
 DOTTED = ["obs.v2", "a.b"]
+# sibling names that pandas' clean_column_name maps to ONE identifier (blank vs underscore next to another special character)
+CLEAN_COLLISIONS = [("t obs!", "t_obs!"), ("a b!", "a_b!"), ("t (s)", "t_(s)"), ("d m/y", "d_m/y")]
 
 
 def ncase(ctx, op, inp, real, model, spec=None, **kw):
     """ctx.case with the hypothesis vector of the frame under test (K10: a nest that is called 'base')"""
     kw.setdefault("hyp", dict(getattr(ctx, "_names_hyp", {})))
+    only = getattr(ctx, "_names_only", None)
+    if only and op not in only:
+        return True        # another property borrows the marker frames for the operations it is about
     return ctx.case(op, inp, real, model, spec, **kw)
 
 
@@ -72,6 +77,11 @@ def build_frame(ctx, collide=None):
         fields = rng.sample(FIELDS, rng.randint(2, 3))
         if collide == "field_a" and k == 0 and "a" not in fields:
             fields[0] = "a"
+        if collide is None and k == 0 and rng.random() < 0.3:
+            # two sibling fields whose cleaned names coincide, in either order, ahead of the others
+            pair = list(rng.choice(CLEAN_COLLISIONS))
+            rng.shuffle(pair)
+            fields = pair + fields[:1]
         d = {}
         for j, f in enumerate(fields):
             vals = [float(1000 * (k + 1) + 100 * (j + 1) + r) for r in range(total)]
@@ -108,7 +118,15 @@ def clean_table(names):
     return [[n, clean(n)] for n in names]
 
 
-def case_paths(ctx, collide=None):
+def case_paths(ctx, collide=None, only=None):
+    ctx._names_only = only
+    try:
+        return _case_paths(ctx, collide)
+    finally:
+        ctx._names_only = None
+
+
+def _case_paths(ctx, collide=None):
     rng = ctx.rng
     nf, schema, markers, lens, base_extra = build_frame(ctx, collide)
     sj = schema_json(nf, schema)
@@ -214,6 +232,19 @@ def case_paths(ctx, collide=None):
                         return [None if v is None else float(v) for v in pa.array(r[nest].nest[f]).to_pylist()]
                     ncase(ctx, "names.eval_assign", inp, call_real(evl_assign), None,
                              {"ok": [None if v is None else v * 2 for v in want]}, features=feats)
+    # two sibling fields whose cleaned names coincide, BOTH named in one expression (K11: one alias per cleaned name)
+    for nest, fields in schema.items():
+        pair = [f for f in fields if any(g != f and clean(g) == clean(f) for g in fields)]
+        if len(pair) == 2:
+            a, b = pair if rng.random() < 0.5 else pair[::-1]
+            va, vb = field_vals(markers, nest, a), field_vals(markers, nest, b)
+            expr = f"{bq(nest)}.{bq(a)} + {bq(nest)}.{bq(b)}"
+            def both():
+                return [None if v is None else float(v) for v in pa.array(nf.eval(expr)).to_pylist()]
+            spec = [None if x is None or y is None else x + y for x, y in zip(va, vb)]
+            as_tree = [None if y is None else y + y for y in vb]    # both names resolve to the one recorded last
+            ncase(ctx, "names.eval_two_colliding", {"expr": expr, "schema": sj}, call_real(both), {"ok": as_tree}, {"ok": spec},
+                  hyp={**dict(getattr(ctx, "_names_hyp", {})), "clean_collision_both": True}, features=("clean_collision_both",))
     # unknown paths: an error in every reading operation, never a silent resolution
     nest0 = list(schema)[0]
     unknown = [f"{nest0}.nofield", f"nonest.{schema[nest0][0]}", f"{bq(nest0)}.`no field`", "nonest.nofield", f"{nest0}.{schema[nest0][0]}.deep"]
